@@ -16,40 +16,7 @@ import CBV.Lemmas.C03Geom
 
 namespace CBV.C03
 
-/-- exact solver answers: no slack in any validator -/
-abbrev T0 : Tol := {}
-
-/-- what `Chop.calculate` returns: `(count, total_expansion)`, `none` when it raises -/
-def returned (x : Except (Err × Option Rel) Vals) : Option (Option ℕ × Option ℚ) :=
-  match x with
-  | .ok r => some (r.count, r.total)
-  | .error _ => none
-
 /-! ### 1. the closure loop of `Chop.calculate` on the generated relation table -/
-
-/-- the ten supported pairs (in the order of `Vals.known`) -/
-def pairs : List (List Q) :=
-  [[.count, .start], [.count, .end_], [.count, .c2c], [.count, .total], [.start, .end_], [.start, .c2c],
-   [.start, .total], [.end_, .c2c], [.end_, .total], [.c2c, .total]]
-
-def sublistsOf : List Q → List (List Q)
-  | [] => [[]]
-  | q :: qs => (sublistsOf qs).map (q :: ·) ++ sublistsOf qs
-
-/-- all 32 sets of known quantities -/
-def knownSets : List (List Q) := sublistsOf [.count, .start, .end_, .c2c, .total]
-
-/-- every relation of the plan computes a value that is not yet known from two known ones, and the loop
-    reports success exactly when all five values are known at the end -/
-def planSound (K : List Q) : Bool :=
-  match plan K with
-  | none => false
-  | some (steps, _, done) =>
-      let r := steps.foldl
-        (fun (acc : List Q × Bool) rel =>
-          (rel.out :: acc.1, acc.2 && !(acc.1.contains rel.out) && acc.1.contains rel.in1 && acc.1.contains rel.in2))
-        (K, true)
-      r.2 && (done == allFive r.1)
 
 /-- twelve relations; for each of the ten pairs the loop terminates within 3 of its 12 rounds with all five
     values known, after exactly three relation calls each producing a new value from known ones -/
@@ -77,6 +44,11 @@ theorem T_C03_closure_table :
        some ["start_size<end_size+total_expansion", "count<total_expansion+start_size", "c2c_expansion<count+end_size"],
        some ["count<total_expansion+c2c_expansion", "start_size<count+c2c_expansion", "end_size<start_size+total_expansion"]] := by
   decide
+
+/-- a given count is the returned count, for every set of given parameters (no relation recomputes it) -/
+theorem T_C03_given_count {t : Tol} {L : ℚ} {o : Oracle} {v res : Vals} {n : ℕ}
+    (h : calculate t L o v = .ok res) (hn : v.count = some n) : res.count = some n :=
+  given_count h hn
 
 /-- `__post_init__`: a single parameter is completed by `c2c_expansion = 1`; a count is clamped to `>= 1` -/
 theorem T_C03_defaults (c : ℤ) (x : ℚ) :
@@ -164,6 +136,17 @@ theorem T_C03_search {s r L : ℚ} {fuel n : ℕ} (hs : 0 < s) (hr : 0 < r) (hL 
   ⟨searchCount_spec hL, fun h hf => searchCount_complete hs hr h hf⟩
 
 example : searchCount (1 / 10) (11 / 10) 1 (searchFuel (1 / 10) (11 / 10) 1) = some 8 := by decide +kernel
+
+/-- the exact count always exists and is found with the fuel `searchFuel`, whenever the progression can reach the
+    end of the edge at all (for `r < 1`: `s / (1 - r) > L`, the condition under which the code's logarithm exists) -/
+theorem T_C03_search_total {s r L : ℚ} (hs : 0 < s) (hr : 0 < r) (hL : 0 ≤ L)
+    (ha : r < 1 → 0 < 1 - L * (1 - r) / s) :
+    ∃ n, searchCount s r L (searchFuel s r L) = some n ∧ CountSpec s r L n := by
+  obtain ⟨n, hn⟩ := searchFrom_total (searchFuel s r L) 0 0 1 (by simp [geomSum]) (by simp) hL
+    (by rw [Nat.zero_add]; exact searchFuel_enough hs hr hL ha)
+  exact ⟨n, hn, searchCount_spec hL hn⟩
+
+example : (0 : ℚ) < 1 - 1 * (1 - 9 / 10) / (1 / 5) := by norm_num
 
 /-! ### 4. the ten pairs, end to end on the model of `Chop.calculate` -/
 
@@ -336,55 +319,6 @@ theorem T_C03_pair_c2c_total {L r T : ℚ} {o : Oracle} {res : Vals}
 
 example : (returned (calculate T0 1 { count := some 12 } { c2c := some (11 / 10), total := some 3 })).map (fun p => p.1) = some (some 12) := by
   decide +kernel
-
-/-- what the size-and-total pairs guarantee on the root-finding branch: with `w^(n-1) = T` (the ratio blockMesh
-    uses for `n` cells) the first cell is not coarser than `s`; with one cell fewer (`w'^(n-2) = T`) it is -/
-def SizeTotalSpec (L s T : ℚ) (n : ℕ) : Prop :=
-  (n = 1 → L ≤ s) ∧
-  (2 ≤ n → ∃ w, 0 < w ∧ w ^ (n - 1) = T ∧ firstCell L n w ≤ s) ∧
-  (n = 2 → s ≤ L) ∧
-  (3 ≤ n → ∃ w, 0 < w ∧ w ^ (n - 2) = T ∧ s ≤ firstCell L (n - 1) w)
-
-theorem sizeTotalSpec_of_countTOK {L s T : ℚ} {n : ℕ} {w1 w2 : Option ℚ}
-    (h : countTOK T0 L s T n w1 w2 = true) : 1 ≤ n ∧ SizeTotalSpec L s T n := by
-  unfold countTOK at h
-  simp only [Bool.and_eq_true, decide_eq_true_eq] at h
-  obtain ⟨⟨hn, h1⟩, h2⟩ := h
-  refine ⟨hn, ?_, ?_, ?_, ?_⟩
-  · intro hn1
-    rw [if_pos hn1] at h1
-    simpa using h1
-  · intro hn2
-    rw [if_neg (by omega)] at h1
-    cases w1 with
-    | none => simp at h1
-    | some w =>
-      simp only [Bool.and_eq_true, decide_eq_true_eq] at h1
-      obtain ⟨hp, hle⟩ := h1
-      obtain ⟨hw, hpw⟩ := powOK_zero hp
-      refine ⟨w, hw, hpw, ?_⟩
-      have hg := geomSum_pos (le_of_lt hw) (show 0 < n by omega)
-      rw [gsum_eq_geomSum] at hle
-      unfold firstCell
-      rw [div_le_iff₀ hg]
-      simpa using hle
-  · intro hn2
-    rw [if_neg (by omega), if_pos hn2] at h2
-    simpa using h2
-  · intro hn3
-    rw [if_neg (by omega), if_neg (by omega)] at h2
-    cases w2 with
-    | none => simp at h2
-    | some w =>
-      simp only [Bool.and_eq_true, decide_eq_true_eq] at h2
-      obtain ⟨hp, hle⟩ := h2
-      obtain ⟨hw, hpw⟩ := powOK_zero hp
-      refine ⟨w, hw, hpw, ?_⟩
-      have hg := geomSum_pos (le_of_lt hw) (show 0 < n - 1 by omega)
-      rw [gsum_eq_geomSum] at hle
-      unfold firstCell
-      rw [le_div_iff₀ hg]
-      simpa using hle
 
 /-- (start size, total): the total expansion is reproduced exactly; the count is the rounding to the next whole
     cell (never coarser, coarser with one fewer) — for `|T-1| < TOL` with respect to the uniform cells of size
@@ -637,7 +571,7 @@ theorem T_C03_invert_chop {v w : Vals} (h : invert v = .ok w) :
   split_ifs at h with h0
   simp only [pure, Except.pure, Except.ok.injEq] at h
   subst h
-  push_neg at h0
+  push Not at h0
   refine ⟨rfl, rfl, rfl, rfl, rfl, ?_⟩
   unfold invert
   obtain ⟨c, s, e, r, T⟩ := v
@@ -650,19 +584,21 @@ theorem T_C03_invert_chop {v w : Vals} (h : invert v = .ok w) :
     cases T with
     | none => simp
     | some x => simp only [Option.map_some, ne_eq, Option.some.injEq, one_div, inv_eq_zero]; intro hx; exact h0.2 (by rw [hx])
-  rw [if_neg (by push_neg; exact ⟨hr, hT⟩)]
+  rw [if_neg (by push Not; exact ⟨hr, hT⟩)]
   simp only [pure, Except.pure, Except.ok.injEq, Vals.mk.injEq, true_and]
   refine ⟨?_, ?_⟩
   · cases r <;> simp
   · cases T <;> simp
 
-/-- a chop given by start size and ratio and its inversion (end size, reciprocal ratio) admit the same counts
-    and have reciprocal total expansion: the count specification is literally the same -/
-theorem T_C03_invert_pair {s r L : ℚ} {n : ℕ} (ε : ℚ) (hr : r ≠ 0) :
-    countOK ε s (1 / (1 / r)) L n = countOK ε s r L n ∧ (1 / r) ^ (n - 1) = 1 / r ^ (n - 1) := by
-  constructor
-  · rw [one_div_one_div]
-  · rw [one_div, one_div, inv_pow]
+/-- a chop given by start size and ratio (or by count and start size) and its inversion (end size, reciprocal
+    ratio) are validated by literally the same count / root specification — `count<end_size+c2c` checks
+    `countOK s (1/c')`, `c2c<count+end_size` checks `rootOK e (1/c')` with `c' = 1/c` — and have reciprocal
+    total expansion -/
+theorem T_C03_invert_pair {s r L : ℚ} {n : ℕ} (ε : ℚ) :
+    countOK ε s (1 / (1 / r)) L n = countOK ε s r L n ∧ rootOK ε s (1 / (1 / r)) L n = rootOK ε s r L n ∧
+      (1 / r) ^ (n - 1) = 1 / r ^ (n - 1) := by
+  refine ⟨by rw [one_div_one_div], by rw [one_div_one_div], ?_⟩
+  rw [one_div, one_div, inv_pow]
 
 /-- `Grading.inverted`: divisions in reverse order, same counts (and sum), reciprocal expansion, an involution -/
 theorem T_C03_invert_grading {spec inv : List Division} (h : inverted spec = .ok inv) :
